@@ -379,6 +379,47 @@ def oracle_espirit(ctx: Ctx, deep: bool):
             yield Violation(res[0], res[1] + f" [{spec}]", {"op": "espirit", "spec": spec})
 
 
+def pipeline_espirit_case(spec: dict):
+    """`build_mri_transforms(..., sensitivity_maps_type=ESPIRIT, sensitivity_maps_espirit_*=...)` on a raw sample"""
+    import numpy as np
+    import direct.data.transforms as T
+    from direct.common.subsample import FastMRIEquispacedMaskFunc, FastMRIRandomMaskFunc
+    from direct.data.mri_transforms import SensitivityMapType, build_mri_transforms
+
+    seed = spec["seed"]
+    rs = np.random.RandomState(seed)
+    mf = (FastMRIRandomMaskFunc if seed % 2 else FastMRIEquispacedMaskFunc)(accelerations=[2], center_fractions=[0.25])
+    tr = build_mri_transforms(T.fft2, T.ifft2, mf, estimate_sensitivity_maps=True, sensitivity_maps_type=SensitivityMapType.ESPIRIT,
+                              sensitivity_maps_espirit_threshold=spec["thr"], sensitivity_maps_espirit_kernel_size=spec["ks"],
+                              sensitivity_maps_espirit_crop=spec["crop"], sensitivity_maps_espirit_max_iters=spec["iters"],
+                              pad_coils=spec["pad_coils"], use_seed=True)
+    shape = (spec["c"], 8 + seed % 3, 24 + seed % 4)
+    ks = ((rs.randn(*shape) + 1j * rs.randn(*shape)) * 10.0 ** [0, -4, 4][seed % 3]).astype(np.complex64)
+    with warnings.catch_warnings():
+        warnings.simplefilter("ignore")
+        out = tr({"kspace": ks, "filename": "f", "slice_no": 0})
+    S = out["sensitivity_map"]
+    if S.shape[0] != max(spec["c"], spec["pad_coils"] or 0):
+        return "pipeline-coil-count", f"sensitivity map has {S.shape[0]} coils"
+    return base.check_map(S.unsqueeze(0), None, "pipeline-espirit")
+
+
+def oracle_pipeline_espirit(ctx: Ctx, deep: bool):
+    rng = ctx.rng
+    for _ in range(ctx.budget(6, 48) * (2 if deep else 1)):
+        ks = rng.choice([2, 2, 3])
+        spec = {"c": rng.choice([1, 2, 3] if ks == 2 else [1, 2]), "ks": ks, "thr": rng.choice([0.0, 0.05, 0.2]), "crop": rng.choice([0.0, 0.8, 0.95]),
+                "iters": rng.choice([1, 5, 30]), "pad_coils": rng.choice([None, None, 4]), "seed": rng.randrange(1, 2 ** 20)}
+        ctx.count(("o-pipeline-espirit", tuple(sorted((k, str(v)) for k, v in spec.items()))), True,
+                  bucket=f"oracle/pipeline/espirit/ks={spec['ks']}/crop={spec['crop']}" + ("/pad_coils" if spec["pad_coils"] else ""))
+        try:
+            res = pipeline_espirit_case(spec)
+        except Exception as e:  # noqa: BLE001
+            res = ("pipeline-espirit-raises", f"build_mri_transforms (ESPIRiT) raises {err_name(e)}: {str(e)[:200]}")
+        if res:
+            yield Violation(res[0], res[1] + f" [{spec}]", {"op": "pipeline_espirit", "spec": spec})
+
+
 # --------------------------------------------------------------------------------------------------
 # oracle: histories on one instance (samples of different shapes), aliasing / in-place modification
 def history_case(spec: dict):
@@ -628,6 +669,7 @@ def oracle_boundary(ctx: Ctx, deep: bool):
 def oracle_ext(ctx: Ctx, deep: bool):
     yield from oracle_matrix(ctx, deep)
     yield from oracle_espirit(ctx, deep)
+    yield from oracle_pipeline_espirit(ctx, deep)
     yield from oracle_histories(ctx, deep)
     yield from oracle_all_engines(ctx, deep)
     yield from oracle_boundary(ctx, deep)
@@ -640,6 +682,8 @@ def replay_ext(rep: dict):
         return matrix_case(rep["spec"]) is not None
     if op == "espirit":
         return espirit_case(rep["spec"]) is not None
+    if op == "pipeline_espirit":
+        return pipeline_espirit_case(rep["spec"]) is not None
     if op == "history":
         return history_case(rep["spec"]) is not None
     if op == "engine_history":
